@@ -1,5 +1,7 @@
+import SamlModel.Props.C02
 import SamlModel.Props.C05
 import SamlModel.Props.C06
+import SamlModel.Props.C07
 import SamlModel.Props.C08
 import SamlModel.Props.C09
 import SamlModel.Props.SsoGen
@@ -196,3 +198,108 @@ theorem C05_redirect_signature_covers_what_is_acted_on (o : Ora) (hlink : Redire
       exact ⟨rfl, sv, rfl, hv⟩
 
 end C05
+
+namespace C02
+open Go Gen Consts CallbackGen Sso SsoGen
+
+/-- **C02 on the regenerated SSO handler.**  In any environment honouring `EnvOK`: if `ssoHandleFunc` as regenerated from
+    sso.go on this run sends the user agent to the login page, then the (consumer URL, binding) pair it handed to
+    `CreateAuthRequest` - the pair the callback will later deliver the assertion to - is the Location and Binding of one
+    AssertionConsumerService entry of the metadata registered for the request's issuer; and the failed Responses it writes
+    itself are addressed either nowhere (they are returned in the HTTP body) or to such a registered pair. -/
+theorem C02_generated_sso_handler (o : Ora) (cfg : provider_IdentityProviderConfig) (fmt : String) (exp : Int)
+    (henv : EnvOK o cfg fmt exp) :
+    (Redirected o cfg fmt exp →
+      ∃ sp e req relay app, spOf o cfg fmt exp = some sp ∧ e ∈ registeredAcs sp ∧
+        IdentityProvider_ssoHandleFunc o (idp cfg fmt exp) =
+          .ok [Eff.callCreateAuthRequest req e.Location e.Binding relay app,
+               Eff.httpRedirect (o.m_LoginURL (spOf o cfg fmt exp) o.m_GetID) 303]) ∧
+    (∀ r st a b rl irt, obsOf (IdentityProvider_ssoHandleFunc o (idp cfg fmt exp)) = some r → r.out = .failed st a b rl irt →
+      (a = "" ∧ b = "") ∨ ∃ sp e, spOf o cfg fmt exp = some sp ∧ e ∈ registeredAcs sp ∧ a = e.Location ∧ b = e.Binding) := by
+  have hr := sso_handler_refines o cfg fmt exp henv
+  unfold goal H at hr
+  constructor
+  · intro hred
+    obtain ⟨hl, req, acs, b, relay, app, ht⟩ := login_of_redirected o cfg fmt exp henv hred
+    obtain ⟨sp, e, p, hsp, he, hp, hacs, hb⟩ := C02_sso_persists_registered_pair o (inOfOra o cfg fmt exp) _ hl
+    rw [ht] at hr
+    simp only [obsOf, Option.some.injEq] at hr
+    have hpers := congrArg ObsR.persist hr
+    simp only [obsOfModel, hp, Option.some.injEq] at hpers
+    have h1 : acs = e.Location := by rw [← hacs, ← hpers]
+    have h2 : b = e.Binding := by rw [← hb, ← hpers]
+    subst h1 h2
+    exact ⟨sp, e, req, relay, app, hsp, he, ht⟩
+  · intro r st a b rl irt hobs hout
+    rw [hobs] at hr
+    simp only [Option.some.injEq] at hr
+    subst hr
+    simp only [obsOfModel] at hout
+    cases hm : (Sso.sso o (inOfOra o cfg fmt exp)).out with
+    | failed n st' a' b' rl' irt' =>
+      rw [hm] at hout
+      simp only [Obs.failed.injEq] at hout
+      obtain ⟨_, ha, hb, _, _⟩ := hout
+      subst ha hb
+      exact C02_sso_error_targets o (inOfOra o cfg fmt exp) n st' a' b' rl' irt' hm
+    | httpError c => rw [hm] at hout; simp at hout
+    | panic => rw [hm] at hout; simp at hout
+    | login id => rw [hm] at hout; simp at hout
+
+end C02
+
+namespace C07
+open Go Gen Consts CallbackGen Sso SsoGen
+
+/-- an accepted request of the model is a login redirect of the regenerated handler, after exactly one successful
+    `CreateAuthRequest` call -/
+theorem redirected_of_login (o : Ora) (cfg : provider_IdentityProviderConfig) (fmt : String) (exp : Int)
+    (henv : EnvOK o cfg fmt exp) (id : String) (h : (Sso.sso o (inOfOra o cfg fmt exp)).out = .login id) :
+    Redirected o cfg fmt exp := by
+  have hr := sso_handler_refines o cfg fmt exp henv
+  unfold goal H at hr
+  have eff_login : ∀ e url, obsOfEff e = .login url → e = Eff.httpRedirect url 303 := by
+    intro e url he
+    unfold obsOfEff at he
+    split at he <;> simp_all
+  have hm : (obsOfModel o cfg fmt exp (Sso.sso o (inOfOra o cfg fmt exp))).out = .login (o.m_LoginURL (spOf o cfg fmt exp) id) := by
+    simp [obsOfModel, h]
+  unfold Redirected
+  cases ht : IdentityProvider_ssoHandleFunc o (idp cfg fmt exp) with
+  | panic =>
+    rw [ht] at hr
+    simp only [obsOf, Option.some.injEq] at hr
+    rw [← hr] at hm
+    simp at hm
+  | ok t =>
+    rw [ht] at hr
+    unfold obsOf at hr
+    split at hr
+    · rename_i heq; simp at heq
+    · rename_i req acs b relay app e heq
+      simp only [Res.ok.injEq] at heq
+      simp only [Option.some.injEq] at hr
+      rw [← hr] at hm
+      simp only at hm
+      have he := eff_login e _ hm
+      exact ⟨[Eff.callCreateAuthRequest req acs b relay app], _, by rw [heq, he]; rfl⟩
+    · rename_i e heq
+      simp only [Res.ok.injEq] at heq
+      simp only [Option.some.injEq] at hr
+      rw [← hr] at hm
+      simp only at hm
+      have he := eff_login e _ hm
+      exact ⟨[], _, by rw [heq, he]; rfl⟩
+    · simp at hr
+
+/-- **C07 on the regenerated SSO handler.**  A conformant AuthnRequest of a registered service provider (`ConformantAuthn`
+    of the input read off from the environment's answers: correctly encoded, correctly signed where a signature is
+    required or present, valid content, answerable consumer endpoint, storage accepts the request) makes the regenerated
+    `ssoHandleFunc` persist it and redirect (303) to the login page. -/
+theorem C07_generated_sso_handler (o : Ora) (cfg : provider_IdentityProviderConfig) (fmt : String) (exp : Int)
+    (henv : EnvOK o cfg fmt exp) (form : Sso.Form) (req : samlp_AuthnRequestType) (iss : saml_NameIDType)
+    (sp : serviceprovider_ServiceProvider) (m : md_EntityDescriptorType) (d : md_SPSSODescriptorType) (idpm : md_IDPSSODescriptorType)
+    (c : ConformantAuthn o (inOfOra o cfg fmt exp) form req iss sp m d idpm) : Redirected o cfg fmt exp :=
+  redirected_of_login o cfg fmt exp henv _ (C07_authn o _ form req iss sp m d idpm c)
+
+end C07
